@@ -11,6 +11,7 @@ import (
 // (every bit string is a legal boolean-coded stream, so the frame is syntactically valid).
 type VP8Prog struct {
 	W, H, Profile int
+	XScale, YScale int // the 2-bit upscaling hints stored above the 14-bit dimensions (decoders ignore them)
 	ColorSpace    int
 	Clamp         int
 	SegEnabled    bool
@@ -59,6 +60,19 @@ func DrawVP8(t *rapid.T, maxSide int) *VP8Prog {
 		return rapid.IntRange(1, maxSide).Draw(t, n)
 	}
 	p.W, p.H = side("w"), side("h")
+	if rapid.IntRange(0, 59).Draw(t, "thin") == 0 {
+		// rare: very wide or very tall frames (row buffers, span-wise SIMD glue, 2048-pixel staging)
+		long := rapid.SampledFrom([]int{2046, 2047, 2048, 2049, 2050, 2063, 2064, 4095, 4096, 4097, 4112, 6145, 8193, 16383}).Draw(t, "thinLong")
+		short := rapid.IntRange(1, 20).Draw(t, "thinShort")
+		if rapid.IntRange(0, 3).Draw(t, "thinTall") == 0 {
+			p.W, p.H = short, long
+		} else {
+			p.W, p.H = long, short
+		}
+	}
+	if rapid.IntRange(0, 19).Draw(t, "scaled") == 0 {
+		p.XScale, p.YScale = rapid.IntRange(0, 3).Draw(t, "xscale"), rapid.IntRange(0, 3).Draw(t, "yscale")
+	}
 	p.Profile = rapid.IntRange(0, 3).Draw(t, "profile")
 	p.ColorSpace = 0
 	p.Clamp = rapid.IntRange(0, 1).Draw(t, "clamp")
@@ -247,8 +261,8 @@ func (p *VP8Prog) Build() []byte {
 	tag := uint32(0) | uint32(p.Profile)<<1 | 1<<4 | uint32(len(part0))<<5
 	out[0], out[1], out[2] = byte(tag), byte(tag>>8), byte(tag>>16)
 	out[3], out[4], out[5] = 0x9d, 0x01, 0x2a
-	out[6], out[7] = byte(p.W), byte(p.W>>8)
-	out[8], out[9] = byte(p.H), byte(p.H>>8)
+	out[6], out[7] = byte(p.W), byte(p.W>>8)|byte(p.XScale&3)<<6
+	out[8], out[9] = byte(p.H), byte(p.H>>8)|byte(p.YScale&3)<<6
 	out = append(out, part0...)
 	for i := 0; i < nParts-1; i++ {
 		n := len(parts[i])
